@@ -89,6 +89,20 @@ def generate(rng, special_rate=0.25, n_roots=None):
         if guard == "guard":
             lines.append("#endif")
         texts[n] = "\n".join(lines) + "\n"
+    if rng.random() < 0.35 and "\\" not in names[0]:
+        # two DIFFERENT files reached by the same include text: each includer names its own directory's `twin.h`
+        da, db = rng.sample(["inc", "inc/sub", "sys", "q", "quote dir"], 2)
+        for dd, tag in ((da, "a"), (db, "b")):
+            twin, user = os.path.join(dd, "twin.h"), os.path.join(dd, "use_twin_%s.h" % tag)
+            texts[twin] = "#pragma once\nextern int twin_%s;\n" % tag
+            texts[user] = '#pragma once\n#include "twin.h"\nextern int use_twin_%s;\n' % tag
+            active_edges[twin] = []
+            active_edges[user] = [twin]
+            guards[twin] = guards[user] = "once"
+            names += [twin, user]
+            root_dir = os.path.dirname(names[0])
+            texts[names[0]] += '#include "%s"\n' % os.path.relpath(user, root_dir or ".")
+            active_edges[names[0]].append(user)
     g.files = texts
     k = n_roots or rng.choice([1, 1, 1, 2, 3])
     if rng.random() < 0.15:
